@@ -170,10 +170,10 @@ struct UMeas : public AdditiveMeasurementModel {
     VectorDescription getMeasurementDescription() const override { return desc(lm); }
 };
 struct ServedLTI : public LTIMeasurementModel {
-    MatrixXd y_;
+    MatrixXd y_; bool available = true;
     ServedLTI(const MatrixXd& H, const MatrixXd& R, const MatrixXd& y) : LTIMeasurementModel(H, R), y_(y) {}
     bool freeze(const Data&) override { return true; }
-    std::pair<bool, Data> measure(const Data&) const override { return std::make_pair(true, Data(y_)); }
+    std::pair<bool, Data> measure(const Data&) const override { return std::make_pair(available, Data(y_)); }
 };
 struct LTIState : public LTIStateModel {
     LTIState(const MatrixXd& F, const MatrixXd& Q) : LTIStateModel(F, Q) {}
@@ -274,6 +274,17 @@ static void k_sigma(const vf::Case& c) {
     MatrixXd s = sigma_point::sigma_point(g, 3.0); ob(s.rows()); ob(s.cols());
 }
 
+static void k_psaug(const vf::Case& c) {
+    Layout l = lay(c, "");
+    ParticleSet p = make_particles(l, c.mi("comps"));
+    auto noise = [](long r, long cc) { return r == cc ? spd(r, 3) : filled(r, cc, 3); };
+    { E e("ParticleSet::augmentWithNoise"); ob(p.augmentWithNoise(noise(c.mi("qr"), c.mi("qc"))) ? 1 : 0); }
+    { E e("ParticleSet::augmentWithNoise"); ob(p.augmentWithNoise(noise(c.mi("qr2"), c.mi("qc2"))) ? 1 : 0); }
+    ob(p.dim); ob(p.dim_covariance); ob(p.dim_noise); ob(p.state().rows()); ob(p.mean().rows()); ob(p.covariance().rows()); ob(p.covariance().cols());
+    E e("sigma_point::sigma_point");
+    MatrixXd s = sigma_point::sigma_point(p, 3.0); ob(s.rows()); ob(s.cols());
+}
+
 static void ob_ut(const GaussianMixture& o, const MatrixXd& pxy) {
     ob(o.components); ob(o.dim); ob(o.dim_covariance); ob(pxy.rows()); ob(pxy.cols());
 }
@@ -327,9 +338,15 @@ static void k_kfc(const vf::Case& c) {
     long m = c.mi("m"), n = c.mi("n");
     Layout lp = lay(c, "p"), lq = lay(c, "q");
     GaussianMixture pred = make_mixture(lp, c.mi("comps")), corr = make_mixture(lq, c.mi("compsq"), 0, 2);
-    KFCorrection kf(std::unique_ptr<LinearMeasurementModel>(new ServedLTI(filled(m, n, 1), spd(m, 2), filled(c.mi("yr"), c.mi("yc"), 3))));
+    ServedLTI* raw = new ServedLTI(filled(m, n, 1), spd(m, 2), filled(c.mi("yr"), c.mi("yc"), 3));
+    KFCorrection kf((std::unique_ptr<LinearMeasurementModel>(raw)));
     { E e("KFCorrection::correct"); kf.freeze_measurements(); kf.correct(pred, corr); ob(corr.components); ob(corr.dim); }
     { E e("KFCorrection::getLikelihood"); auto r = kf.getLikelihood(); ob(r.first ? 1 : 0); ob(r.second.size()); }
+    if (c.mi("again")) {     // a second correction that cannot use the measurement, then the likelihood
+        raw->available = false;
+        { E e("KFCorrection::correct"); kf.correct(pred, corr); ob(corr.components); ob(corr.dim); }
+        { E e("KFCorrection::getLikelihood"); auto r = kf.getLikelihood(); ob(r.first ? 1 : 0); ob(r.second.size()); }
+    }
 }
 
 static void k_ukfp(const vf::Case& c) {
@@ -350,21 +367,33 @@ static void k_ukfc(const vf::Case& c) {
     long comps = c.mi("comps"), r = c.mi("r"), ir = c.mi("ir");
     GaussianMixture pred = make_mixture(lp, comps), corr = make_mixture(lq, c.mi("compsq"), 0, 2);
     std::unique_ptr<UMeas> mm(new UMeas(lm, lp, r, ir, valid));
+    UMeas* raw = mm.get();
     std::unique_ptr<UKFCorrection> u;
     if (additive) u.reset(new UKFCorrection(std::unique_ptr<AdditiveMeasurementModel>(std::move(mm)), 1.0, 2.0, 0.5));
     else u.reset(new UKFCorrection(std::unique_ptr<MeasurementModel>(std::move(mm)), 1.0, 2.0, 0.5));
     { E e("UKFCorrection::correct"); u->freeze_measurements(); u->correct(pred, corr); ob(corr.components); ob(corr.dim); }
     { E e("UKFCorrection::getLikelihood"); auto l = u->getLikelihood(); ob(l.first ? 1 : 0); ob(l.second.size()); }
+    if (c.mi("again")) {     // a second correction whose evaluation fails, then the likelihood
+        raw->valid = false;
+        { E e("UKFCorrection::correct"); u->correct(pred, corr); ob(corr.components); ob(corr.dim); }
+        { E e("UKFCorrection::getLikelihood"); auto l = u->getLikelihood(); ob(l.first ? 1 : 0); ob(l.second.size()); }
+    }
 }
 
 static void k_sukf(const vf::Case& c) {
     Layout lp = lay(c, "p"), lq = lay(c, "q");
     long comps = c.mi("comps"), msz = c.mi("msz"), sub = c.mi("sub"), r = c.mi("r"), ir = c.mi("ir");
     GaussianMixture pred = make_mixture(lp, comps), corr = make_mixture(lq, c.mi("compsq"), 0, 2);
-    std::unique_ptr<AdditiveMeasurementModel> mm(new UMeas(Layout{msz, 0, false}, lp, r, ir, true));
+    UMeas* raw = new UMeas(Layout{msz, 0, false}, lp, r, ir, true);
+    std::unique_ptr<AdditiveMeasurementModel> mm(raw);
     SUKFCorrection u(std::move(mm), 1.0, 2.0, 0.5, (std::size_t)sub, false);
     { E e("SUKFCorrection::correct"); u.freeze_measurements(); u.correct(pred, corr); ob(corr.components); ob(corr.dim); }
     { E e("SUKFCorrection::getLikelihood"); auto l = u.getLikelihood(); ob(l.first ? 1 : 0); ob(l.second.size()); }
+    if (c.mi("again")) {
+        raw->valid = false;
+        { E e("SUKFCorrection::correct"); u.correct(pred, corr); ob(corr.components); ob(corr.dim); }
+        { E e("SUKFCorrection::getLikelihood"); auto l = u.getLikelihood(); ob(l.first ? 1 : 0); ob(l.second.size()); }
+    }
 }
 
 static void ob_particles(const ParticleSet& p) {
@@ -488,6 +517,7 @@ int main() {
             else if (c.kind == "history") k_history(c);
             else if (c.kind == "grid") k_grid(c);
             else if (c.kind == "sigma") k_sigma(c);
+            else if (c.kind == "psaug") k_psaug(c);
             else if (c.kind == "ut") k_ut(c);
             else if (c.kind == "kfp") k_kfp(c);
             else if (c.kind == "kfc") k_kfc(c);
